@@ -13,6 +13,9 @@ Arguments N.land : simpl never.
 Arguments be32 : simpl never.
 Arguments u32 : simpl never.
 
+(* Codec.replace_jentry advances the entry index by 4, as replace_jentry does in builder.rs *)
+Lemma replace_jentry_stride : BLD_JSTEP = 4. Proof. reflexivity. Qed.
+
 Definition epl (e : entry) : list N := snd (entry_item e).
 Definition eje (e : entry) : je := fst (entry_item e).
 Definition esum (l : list entry) : N := fold_right (fun e a => lenN (epl e) + a) 0 l.
@@ -143,10 +146,10 @@ Lemma write_arr_step es buf : Forall espec_ok es -> Forall elen_ok es ->
    flat_map (fun e : entry => be32 (je_encoded (eje e))) es ++ flat_map epl es,
    (CONTAINER_TAG, u32 (4 + lenN es * 4 + esum es))).
 Proof.
-  intros Hs Hl. cbn [write_entry]. unfold reserve_jentries.
+  intros Hs Hl. cbn [write_entry]. unfold reserve_jentries, BLD_ARR_RESERVE, BLD_ARR_LEN0.
   pose proof (bld_values_spec es Hs Hl (buf ++ be32 (header_word ARRAY_CONTAINER_TAG (lenN es))) [] [] (4 + lenN es * 4)) as E.
   cbn [app] in E. rewrite !app_nil_r in E.
-  replace (length es * 4)%nat with (4 * length es)%nat by lia.
+  replace (N.to_nat (lenN es * 4)) with (4 * length es)%nat by (unfold lenN; lia).
   rewrite E. reflexivity.
 Qed.
 Lemma arr_layout_eq es buf :
@@ -169,9 +172,9 @@ Lemma write_obj_step kes buf : Forall (fun ke => espec_ok (snd ke)) kes -> Foral
    flat_map (fun ke => be32 (je_encoded (eje (snd ke)))) kes ++ flat_map fst kes ++ flat_map (fun ke => epl (snd ke)) kes,
    (CONTAINER_TAG, u32 (4 + lenN kes * 8 + ksum kes + esum (map snd kes)))).
 Proof.
-  intros Hs Hl. cbn [write_entry]. unfold reserve_jentries.
+  intros Hs Hl. cbn [write_entry]. unfold reserve_jentries, BLD_OBJ_RESERVE, BLD_OBJ_LEN0.
   set (pre := buf ++ be32 (header_word OBJECT_CONTAINER_TAG (lenN kes))).
-  replace (length kes * 8)%nat with (4 * length kes + 4 * length kes)%nat by lia.
+  replace (N.to_nat (lenN kes * 8)) with (4 * length kes + 4 * length kes)%nat by (unfold lenN; lia).
   rewrite repeat_app.
   pose proof (bld_keys_spec kes pre [] (repeat 0 (4 * length kes)) [] (4 + lenN kes * 8)) as EK.
   cbn [app] in EK. rewrite !app_nil_r in EK. rewrite EK. clear EK.
